@@ -462,7 +462,7 @@ TRIAGE_Q5 = {
 def q5(prog, rep):
     entries = [CV + "decode_raw_blobs", RC + "reconstruct_blocks_from_verified_blobs"]
     import c17
-    triage = dict(c17.TRIAGE)
+    triage = c17.merkle_triage(prog, rep, "Q5")
     triage.update(TRIAGE_Q5)
     seen, n, used = k7_panics(prog, rep, "Q5", entries, triage,
                               crates={"astria_conductor", "astria_core", "astria_merkle",
